@@ -222,6 +222,9 @@ inline void group_items(const Opm::Group& g, const Opm::SummaryState& st, Sweep&
                 if (g.has_control(ph, C::REIN)) { o.N(P + "reinj_fraction", "ginj.reinj_fraction:" + kind, c.target_reinj_fraction); o.S(P + "reinj_group", "ginj.reinj_group:" + kind, c.reinj_group); }
                 if (g.has_control(ph, C::VREP)) { o.N(P + "void_fraction", "ginj.void_fraction:" + kind, c.target_void_fraction); o.S(P + "voidage_group", "ginj.voidage_group:" + kind, c.voidage_group); }
                 o.I(P + "available", "ginj.available:" + kind, g.injectionGroupControlAvailable(ph));
+                o.I(P + "guide_rate_def", "ginj.guide_rate_def:" + kind, (int)c.guide_rate_def);
+                if (c.guide_rate_def != Opm::Group::GuideRateInjTarget::NO_GUIDE_RATE) o.N(P + "guide_rate", "ginj.guide_rate:" + kind, c.guide_rate);
+                o.I(P + "controls", "ginj.injection_controls:" + kind, c.injection_controls);
             } catch (const std::exception& e) { o.S(P + "x", "ginj.throws:" + kind, std::string("EXC ") + e.what()); }
         }
         { std::string s; for (Opm::Phase ph : {Opm::Phase::WATER, Opm::Phase::GAS, Opm::Phase::OIL}) s += g.hasInjectionControl(ph) ? '1' : '0'; o.S(K + "inj.phases", "ginj.phases:" + kind, s); }
